@@ -251,5 +251,66 @@ Fixpoint match_items (its : list item) (n : text) : bool :=
   | Star k :: r => star_match k (match_items r) n
   end.
 
+(* ---- the MEANING of a regex of the fragment: the set of strings it accepts, as a relation -------------
+   (this, with the reader above, is what is trusted about CPython `re`; the executable matcher
+   `match_items` is proved to decide it in Proofs/ReFragProofs.v)
+     a class accepts one character; an item is one character of its class, or (k*?) any run of
+     characters of its class; a regex (?s:i1 i2 ... in)\Z accepts the concatenations, and nothing may
+     remain after the last item (the end anchor).  Lazy or greedy does not matter for acceptance. *)
+Definition in_setitem (i : setitem) (x : N) : Prop :=
+  match i with
+  | SLit c => x = c
+  | SRange lo hi => lo <= x /\ x <= hi
+  end.
+
+Inductive in_cls : cls -> N -> Prop :=
+| IC_any : forall x, in_cls CAny x
+| IC_lit : forall c, in_cls (CLit c) c
+| IC_set : forall items x i, In i items -> in_setitem i x -> in_cls (CSet false items) x
+| IC_nset : forall items x, (forall i, In i items -> ~ in_setitem i x) -> in_cls (CSet true items) x.
+
+Inductive item_lang : item -> text -> Prop :=
+| IL_one : forall k x, in_cls k x -> item_lang (One k) [x]
+| IL_star_nil : forall k, item_lang (Star k) []
+| IL_star_cons : forall k x u, in_cls k x -> item_lang (Star k) u -> item_lang (Star k) (x :: u).
+
+Inductive matches_re : regex -> text -> Prop :=
+| MR_end : matches_re [] []
+| MR_item : forall i r u v, item_lang i u -> matches_re r v -> matches_re (i :: r) (u ++ v).
+
+(* ---- a backtracking-free matcher: one pass per item over the table "does the rest of the regex accept the
+   suffix of n starting here", O(|regex| * |n|).  Proved equal to match_items (Proofs/ReFragProofs.v). *)
+Fixpoint tails (n : text) : list text :=
+  n :: match n with [] => [] | _ :: n' => tails n' end.
+
+(* acc is aligned with tails n *)
+Fixpoint step_one (k : cls) (n : text) (acc : list bool) : list bool :=
+  match n, acc with
+  | x :: n', _ :: acc' => (cls_match k x && hd false acc') :: step_one k n' acc'
+  | _, _ => [false]
+  end.
+
+Fixpoint step_star (k : cls) (n : text) (acc : list bool) : list bool :=
+  match n, acc with
+  | x :: n', a :: acc' =>
+    let rest := step_star k n' acc' in
+    (a || (cls_match k x && hd false rest)) :: rest
+  | _, _ => [hd false acc]
+  end.
+
+Definition step_item (n : text) (i : item) (acc : list bool) : list bool :=
+  match i with
+  | One k => step_one k n acc
+  | Star k => step_star k n acc
+  end.
+
+Definition table_end (n : text) : list bool :=
+  map (fun s => match s with [] => true | _ => false end) (tails n).
+
+Definition match_table (its : list item) (n : text) : list bool :=
+  fold_right (step_item n) (table_end n) its.
+
+Definition match_linear (its : list item) (n : text) : bool := hd false (match_table its n).
+
 Definition match_re (r : outcome regex) (n : text) : outcome bool :=
   bind r (fun its => Ok (match_items its n)).
